@@ -160,7 +160,8 @@ CLAIMS["C19"] = {
             "the default, moves a listed default without adding it again and adds an unlisted one exactly once; (2) contain_duplicates returns None exactly when no name is "
             "listed twice and otherwise exactly the set of names listed more than once.",
     "note": "Not covered (outside both verifiers): TOML/serde deserialisation incl. required fields (serde MapAccess), file "
-            "selection, the call sites in ConfigFile::new / visit_map. "Assumed std contracts: slice::swap, A5 `v.iter().position(p)` (one call; vstd cannot relate the temporary "
+            "selection, the call sites in ConfigFile::new / visit_map. "
+            "Assumed std contracts: slice::swap, A5 `v.iter().position(p)` (one call; vstd cannot relate the temporary "
             "iterator to the vector in the `None` case), A2 "
             "Option::get_or_insert_with(BTreeSet::new).insert(k); C1 closure contract annotation on `|l| l == &cfg.default`.",
     "design_ref": "DESIGN.md section 8.5",
